@@ -123,6 +123,18 @@ def shp(s):
     return "shape[" + ",".join(str(x) for x in s) + "]"
 
 
+def same_terms(model, impl, has_rhs, lg):
+    """Requested terms must agree exactly; for a term that was not requested only the kind of placeholder
+    (none / empty / some tensor) is compared — its shape is not part of the documented interface."""
+    m, i = model.split(" "), impl.split(" ")
+    if len(m) != 2 or len(i) != 2:
+        return False
+    kind = lambda t: t.split("[")[0]
+    ok_iq = m[0] == i[0] if has_rhs else kind(m[0]) == kind(i[0])
+    ok_ld = m[1] == i[1] if lg else kind(m[1]) == kind(i[1])
+    return ok_iq and ok_ld
+
+
 def exc_tag(e):
     """ExceptionType@file.function of the innermost linear_operator frame."""
     tb = traceback.extract_tb(e.__traceback__)
@@ -224,7 +236,7 @@ def path_of(op, settings):
         if op.shape[-1] >= settings.max_cholesky_size.value() and isinstance(op.diag_tensor, KroneckerProductDiagLinearOperator):
             if len(op.linear_op.linear_ops) == len(op.diag_tensor.linear_ops) and all(
                     isinstance(d, ConstantDiagLinearOperator) for d in op.diag_tensor.linear_ops):
-                return f"kronD12/{base}"
+                return f"kron/{base}"  # closed form (was D12 until /repo 04e576d)
             return f"kron/{base}"
         return f"kronfb/{base}"
     if isinstance(op, KroneckerProductLinearOperator):
@@ -244,7 +256,7 @@ def path_of(op, settings):
 def stochastic_expected(path):
     """Does this path reach InvQuadLogdet (stochastic Lanczos quadrature) when the log-determinant is requested?"""
     toks = path.split("/")
-    return toks[-1] == "slq" and "kron" not in toks and "kronD12" not in toks
+    return toks[-1] == "slq" and "kron" not in toks
 
 
 # ----------------------------------------------------------------------------- extra instances
@@ -296,6 +308,52 @@ def extra_instances(rng, dtype, batch, n):
     Lc = torch.tril(ri(rng, (*batch, n, n), -2, 2, dtype)) * (1 - eye(n)) + torch.diag_embed(ri(rng, (*batch, n), 1, 3, dtype))
     out.append(Inst("BatchRepeat(Chol)", lambda c, L=Lc: (lambda t: (BatchRepeatLinearOperator(CholLinearOperator(TriangularLinearOperator(t)), batch_repeat=torch.Size((2,) + (1,) * len(batch))),
                                                                   (L @ L.mT).repeat(*((2,) + (1,) * len(batch)), 1, 1), [t]))(c(L)), True))
+    # ---- orientation / argument-order variants of the closed-form classes ------------------------------------
+    from linear_operator.operators import (AddedDiagLinearOperator, BlockInterleavedLinearOperator, KroneckerProductTriangularLinearOperator,
+                                           LowRankRootAddedDiagLinearOperator, LowRankRootLinearOperator)
+    Uu = torch.triu(ri(rng, (*batch, n, n), -2, 2, dtype)) * (1 - eye(n)) + torch.diag_embed(ri(rng, (*batch, n), 1, 3, dtype))
+    if n >= 2:
+        Uu[..., 0, n - 1] = 2  # make sure U^T U != U U^T
+    out.append(Inst("Chol[upper]", lambda c, U=Uu: (lambda t: (CholLinearOperator(TriangularLinearOperator(t, upper=True), upper=True), U.mT @ U, [t]))(c(U)), True))
+    Ap = psd_int(rng, batch, n, dtype)
+    out.append(Inst("Chol[cholesky(upper)]", lambda c, A=Ap: (lambda t: (CholLinearOperator(DenseLinearOperator(t).cholesky(upper=True), upper=True), A, [t]))(c(A)), True, tags=("sqrt",)))
+    out.append(Inst("Chol[cholesky(lower)]", lambda c, A=Ap: (lambda t: (CholLinearOperator(DenseLinearOperator(t).cholesky()), A, [t]))(c(A)), True, tags=("sqrt",)))
+    U2 = torch.triu(ri(rng, (*batch, 2, 2), 1, 3, dtype))
+    KU = kron(U2, Uu)
+    out.append(Inst("Chol[upper](KroneckerTriangular)", lambda c, a=U2, b=Uu: (lambda s, t: (
+        CholLinearOperator(KroneckerProductTriangularLinearOperator(TriangularLinearOperator(s, upper=True), TriangularLinearOperator(t, upper=True), upper=True), upper=True),
+        KU.mT @ KU, [s, t]))(c(a), c(b)), True))
+    KL = kron(U2.mT.contiguous(), L)
+    out.append(Inst("Chol[lower](KroneckerTriangular)", lambda c, a=U2.mT.contiguous(), b=L: (lambda s, t: (
+        CholLinearOperator(KroneckerProductTriangularLinearOperator(TriangularLinearOperator(s), TriangularLinearOperator(t))), KL @ KL.mT, [s, t]))(c(a), c(b)), True))
+    out.append(Inst("Chol[Kronecker.cholesky(upper)]", lambda c, a=K1, b=K2: (lambda s, t: (
+        CholLinearOperator(KroneckerProductLinearOperator(s, t).cholesky(upper=True), upper=True), kron(a, b), [s, t]))(c(a), c(b)), True, tags=("sqrt",)))
+    Ub = torch.triu(ri(rng, (*batch, 2, n, n), -2, 2, dtype)) * (1 - eye(n)) + torch.diag_embed(ri(rng, (*batch, 2, n), 1, 3, dtype))
+    out.append(Inst("BlockDiag(Chol[upper])", lambda c, U=Ub: (lambda t: (BlockDiagLinearOperator(CholLinearOperator(TriangularLinearOperator(t, upper=True), upper=True)),
+                                                                      catalogue.block_diag_dense(U.mT @ U), [t]))(c(U)), True))
+    out.append(Inst("BlockInterleaved(Chol[upper])", lambda c, U=Ub: (lambda t: (BlockInterleavedLinearOperator(CholLinearOperator(TriangularLinearOperator(t, upper=True), upper=True)),
+                                                                             catalogue.block_interleaved_dense(U.mT @ U), [t]))(c(U)), True))
+    rep2 = (2,) + (1,) * len(batch)
+    out.append(Inst("BatchRepeat(Chol[upper])", lambda c, U=Uu: (lambda t: (BatchRepeatLinearOperator(CholLinearOperator(TriangularLinearOperator(t, upper=True), upper=True), batch_repeat=torch.Size(rep2)),
+                                                                        (U.mT @ U).repeat(*rep2, 1, 1), [t]))(c(U)), True))
+    if n >= 2:
+        out.append(Inst("Triangular[upper,2neg]", lambda c, U=(L * s2.unsqueeze(-2)).mT.contiguous(): (lambda t: (TriangularLinearOperator(t, upper=True), U, [t]))(c(U)), True, tags=("nonsym",)))
+    out.append(Inst("Triangular[upper,1neg]", lambda c, U=(L * s1.unsqueeze(-2)).mT.contiguous(): (lambda t: (TriangularLinearOperator(t, upper=True), U, [t]))(c(U)), True, tags=("nonsym", "negdet")))
+    out.append(Inst("KroneckerDiag[const]", lambda c, e=c1, f=d2: (lambda u, v: (KroneckerProductDiagLinearOperator(ConstantDiagLinearOperator(u, diag_shape=2), DiagLinearOperator(v)),
+                                                                        kron(e.unsqueeze(-1) * eye(2), torch.diag_embed(f)), [u, v]))(c(e), c(f)), True))
+    dk = ri(rng, (*batch, 2 * n), 1, 3, dtype)
+    out.append(Inst("KroneckerAddedDiag[diag-first]", lambda c, a=K1, b=K2, e=dk: (lambda s, t, u: (
+        KroneckerProductAddedDiagLinearOperator(DiagLinearOperator(u), KroneckerProductLinearOperator(s, t)), kron(a, b) + torch.diag_embed(e), [s, t, u]))(c(a), c(b), c(e)), True))
+    out.append(Inst("KroneckerAddedDiag[const-first]", lambda c, a=K1, b=K2, e=c1: (lambda s, t, u: (
+        KroneckerProductAddedDiagLinearOperator(ConstantDiagLinearOperator(u, diag_shape=2 * n), KroneckerProductLinearOperator(s, t)), kron(a, b) + e.unsqueeze(-1) * eye(2 * n), [s, t, u]))(c(a), c(b), c(e)), True))
+    dA = ri(rng, (*batch, n), 1, 4, dtype)
+    out.append(Inst("AddedDiag[diag-first]", lambda c, a=Ap, e=dA: (lambda s, t: (AddedDiagLinearOperator(DiagLinearOperator(t), DenseLinearOperator(s)), a + torch.diag_embed(e), [s, t]))(c(a), c(e)), True))
+    out.append(Inst("AddedDiag[const]", lambda c, a=Ap, e=c2: (lambda s, t: (AddedDiagLinearOperator(DenseLinearOperator(s), ConstantDiagLinearOperator(t, diag_shape=n)), a + e.unsqueeze(-1) * eye(n), [s, t]))(c(a), c(e)), True))
+    Rr = ri(rng, (*batch, n, 2), dtype=dtype)
+    out.append(Inst("LowRankRootAddedDiag[const]", lambda c, r=Rr, e=c2: (lambda s, t: (LowRankRootAddedDiagLinearOperator(LowRankRootLinearOperator(s), ConstantDiagLinearOperator(t, diag_shape=n)),
+                                                                               r @ r.mT + e.unsqueeze(-1) * eye(n), [s, t]))(c(r), c(e)), True))
+    out.append(Inst("LowRankRootAddedDiag[diag-first]", lambda c, r=Rr, e=dA: (lambda s, t: (LowRankRootAddedDiagLinearOperator(DiagLinearOperator(t), LowRankRootLinearOperator(s)),
+                                                                                    r @ r.mT + torch.diag_embed(e), [s, t]))(c(r), c(e)), True))
     return out
 
 
@@ -503,10 +561,10 @@ class State:
             self.lines.append(f"shape {path} {'.'.join(map(str, batch)) or '-'} {rhs_d} {int(lg)} {int(red)}")
             if exc is not None:
                 tag = exc_tag(exc)
-                self.expect.append(("shape", cell, "err err", path))
+                self.expect.append(("shape", cell, "err err", cell + "/exception=" + tag))
                 chk.violation(cell + "/exception=" + tag, f"inv_quad_logdet raised {type(exc).__name__}: {str(exc)[:160]}", payload)
                 return
-            self.expect.append(("shape", cell, f"{term_desc(iq)} {term_desc(ld)}", path))
+            self.expect.append(("shape", cell, f"{term_desc(iq)} {term_desc(ld)}", ("req", R is not None, lg)))
             node = find_slq_node(iq, ld)
             stoch = node is not None
             chk.count("path:" + ("stochastic" if stoch else "deterministic"))
@@ -689,13 +747,15 @@ class State:
         for o, (kind, cell, want, tol) in zip(outs, self.expect):
             pl = {"cell": cell, "seed": chk.seed, "tier": chk.tier}
             if kind == "shape":
-                if o == want:
+                if o == want or (isinstance(tol, tuple) and same_terms(o, want, tol[1], tol[2])):
                     chk.traces_validated += 1
                     chk.count("shape_model_agree")
                 elif o.startswith("err") and want.startswith("err"):
                     chk.traces_validated += 1
-                elif o.startswith("err") and tol is not None and "kronD12" in tol:
-                    chk.count("D12_cell_now_passes")  # model mirrors the defect; the implementation no longer raises (fix applied)
+                elif want.startswith("err") and isinstance(tol, str) and chk.known(tol) is not None:
+                    # the model describes the patched behaviour (notes/C05_fix_*.diff); the unpatched implementation raises
+                    # in a cell that is an open finding: already counted there
+                    chk.count("model_patched_impl_open_finding")
                 else:
                     chk.corr_break(cell + "/shape-model", f"Lean shape model says '{o}', implementation returned '{want}'", pl)
             elif kind == "scalar":
